@@ -35,7 +35,7 @@ def plan(tier):
             "min_nontrivial": 100,
             "min_counters": {"queries_checked": 5000, "instances_reclaimed": 1000,
                              "clears": 100, "reevaluations": 500, "bulk_dropped": 2000, "rule_pairs_compared": 300,
-                             "rule_pairs_with_answers": 100, "pair_queries_checked": 300}}
+                             "rule_pairs_with_answers": 100, "pair_queries_checked": 300, "stored_queries_with_the_variable_behind_a_nested_query": 100}}
 
 
 def setup(ctx):
@@ -293,7 +293,12 @@ def run(spec, ctx):
             if step[1] == "Chief":
                 continue            # a role has no name field
             T = om.ALL_CLASSES[step[1]]
-            attr_queries.append([an(entity(let(T, None).name)), step[1]])
+            if len(shape) % 2 == 0:
+                # ... of a nested query: two levels away from the query that is evaluated
+                attr_queries.append([an(entity(an(entity(let(T, None).name)))), step[1]])
+                C["stored_queries_with_the_variable_behind_a_nested_query"] += 1
+            else:
+                attr_queries.append([an(entity(let(T, None).name)), step[1]])
             shape.append("a" + step[1][0])
         elif op == "q_eval" and attr_queries and step[1] % 3 == 0:
             q, tname = attr_queries[step[1] % len(attr_queries)]
